@@ -898,6 +898,18 @@ func (w *c04dWorker) godec(kind, rawHex, goRes, canon string, malformed bool) {
 		}
 		ctx.Fail("L2", "delta-"+kind+"-decoder-mirror", "the Go decoder and the Lean mirror of the portable decoder disagree ("+ctx.Variant+" build)", detail)
 	})
+	if kind == "dba" && !malformed && ctx.Variant == "asm" && strings.HasPrefix(goRes, "ok ") {
+		// the mirror of what the assembly build really runs: the amd64 Go wrapper with the AVX2 kernels
+		// replaced by their contract (theorem dba_amd64_wrapper_eq_portable)
+		w.ask("dba.godecamd64 "+rawHex, func(ans string) {
+			if ans != goRes {
+				ctx.Fail("L2", "delta-dba-amd64-wrapper-mirror", "DecodeByteArray on the assembly build and the Lean mirror of the amd64 Go wrapper (AVX2 kernels by contract) disagree",
+					map[string]any{"case": c04dClip(canon), "impl": c04dClip(goRes), "model": c04dClip(ans)})
+			} else {
+				ctx.Hist("decoder-mirror-dba-amd64-wrapper", "equal")
+			}
+		})
+	}
 }
 
 // raw outcome of LengthByteArrayEncoding.DecodeByteArray in the format of `dlba.godec`
